@@ -130,6 +130,8 @@ OPS = {
     "index_union": lambda pd, np, d, e: d[d["a"] > 0].index.union(e[e["a"] < 3].index),
     "where_np": lambda pd, np, d, e: np.where(d["a"].gt(0), 0, -1),
     "frame_loc_labels": lambda pd, np, d, e: d.loc[[d.index[-1], d.index[0]]][["a"]],
+    "sum_ratio_empty": lambda pd, np, d, e: [d[d["a"] > 100]["a"].sum() / d[d["a"] > 100]["b"].sum(),
+                                             d["b"].sum() / d[d["a"] > 100]["b"].sum()],
     "dtype_kinds": lambda pd, np, d, e: [d[c].dtype.kind for c in ["k", "f", "s"]] + [str(d["s"].dtype == "object")],
 }
 
